@@ -6,7 +6,9 @@ misorientations_random, diagnostics.misorientation_index against the extracted
 Model_mindex; Rotation.as_quat is an oracle (recorded, residual-checked).  The quaternion
 product VARIANT the code realises (Dropped | Hamilton) is decided here.  The batched
 misorientation_indices (process pools) is compared with the sequential values at run time
-only (declared partial).  Known defects of the unchanged tree are printed as
+only (declared partial).  Large aggregates (grain counts / pair-row counts on both sides of size boundaries, ordered
+heterogeneous textures, reorderings, row-wise evaluation of big row stacks) are a family of their own (`large_aggregates`),
+stored in replay files as recipes.  Known defects of the unchanged tree are printed as
 KNOWN-FINDING while their witnesses reproduce; any other disagreement is a VIOLATION."""
 from __future__ import annotations
 
@@ -25,7 +27,7 @@ FILES = ["Model_mindex.v", "Proofs_mindex.v", "Proofs_mindex_mass.v", "Proofs_mi
          "Proofs_mindex_single_tm.v", "Proofs_mindex_single_o.v", "Proofs_mindex_single_thm.v", "Proofs_mindex_hist.v", "Proofs_mindex_frame.v",
          "gen/Gen_mindex.v", "Inst_mindex.v", "Inst_mindex_random.v", "Inst_mindex_random_o.v", "Inst_mindex_random_r.v",
          "Inst_mindex_random_t.v", "Inst_mindex_random_h.v", "Inst_mindex_index.v", "Proofs_mindex_gen.v",
-         "Entry_mindex.v", "Extract_mindex.v"]
+         "Entry_mindex.v", "Extract_mindex.v", "Model_blocks.v", "Proofs_blocks.v"]
 PROP = "Properties/C14.v"
 FINDINGS = ["Findings/C14_quat.v", "Findings/C14_mass.v", "Findings/C14_gen.v"]
 GROUP = "mindex"
@@ -619,6 +621,641 @@ def batched(chk, tier):
 
 
 # --------------------------------------------------------------------------
+# large aggregates / size boundaries
+#
+# The property quantifies over 2..2000 grains; everything above works with <= 200.  An implementation may treat a LARGE
+# stack of pair rows differently from a small one (blocked / chunked evaluation under a memory cap, a wider index type, a
+# different reduction): such code is only executed when the number of pair rows n(n-1)/2, or the size rows x n_sym^2 x 8
+# bytes of the rows x (A*B) table of candidate angles, crosses some boundary.  This family puts grain counts / row counts
+# on BOTH sides of the boundaries 2^k bytes and 2^j rows (and on / off multiples of typical block sizes) for every lattice
+# system, with ORDERED heterogeneous textures (blocks of aligned / tightly clustered / random grains one after the other:
+# which pairs sit in which part of the row stack depends on the grain order), and judges
+#   * public API (misorientation_index): index a number in [0, 1]; unchanged when the grains are reordered (reversed,
+#     randomly permuted, blocks swapped) -- every pair keeps its angle, and the index moves by at most the pairs whose
+#     1-degree bin changed; index = model index of the recorded angles; arguments unchanged;
+#   * geometry.misorientation_angles is ROW-WISE (row r of the result is the minimum over the operator pairs of the
+#     angle between q1[r, a] and q2[r, b]): its value on a big row stack equals its value on any slice / gather of the rows,
+#     and sampled rows equal the extracted model (`misangle`).
+# A case is a function of a small RECIPE (system, grain count, block kinds, seed): that is what a replay file stores.
+# The calls are expensive (misorientation_hist loops over pairs x operators in Python: 10 s for 520 hexagonal grains), so
+# the units run side by side in forked workers.
+# --------------------------------------------------------------------------
+MAX_GRAINS = 2000
+LARGE_BLOCK_KINDS = (("aligned", "random"), ("random", "aligned"), ("tight", "random"), ("random", "tight", "aligned"))
+REORDERINGS = ("reversed", "permutation", "blocks-swapped")
+TYPICAL_BLOCKS = (1000, 1024, 4096, 65536)
+SAME_ROW_TOL = 1e-6     # cos(angle / 2) of the SAME rows evaluated twice / of the SAME pair in another order (float32 arithmetic)
+
+
+def npairs(n):
+    return n * (n - 1) // 2
+
+
+def grains_above(rows):
+    """smallest number of grains with MORE than `rows` pairs"""
+    n = max(2, (1 + math.isqrt(1 + 8 * max(rows, 0))) // 2)
+    while npairs(n) <= rows:
+        n += 1
+    while n > 2 and npairs(n - 1) > rows:
+        n -= 1
+    return n
+
+
+def split_blocks(n, kinds):
+    b = len(kinds)
+    sizes = [n // b] * (b - 1) + [n - (b - 1) * (n // b)]
+    return [[k, int(c)] for k, c in zip(kinds, sizes)]
+
+
+def ordered_texture(recipe):
+    """the orientation matrices of a recipe dict(n, blocks=[[kind, count], ...], seed): blocks of aligned (one orientation),
+    tight (0.08 rad), clustered (0.5 rad) or random (Haar) grains, one block after the other"""
+    rng = np.random.default_rng([int(recipe["seed"]), 14, int(recipe["n"])])
+    parts = [texture(rng, {"aligned": "single"}.get(kind, kind), int(cnt)) for kind, cnt in recipe["blocks"] if int(cnt) > 0]
+    os = np.ascontiguousarray(np.concatenate(parts))
+    assert len(os) == int(recipe["n"])
+    return os
+
+
+def reorder_perm(recipe, order):
+    """index array p of a reordering: the reordered texture is os[p]"""
+    n = int(recipe["n"])
+    if order == "reversed":
+        return np.arange(n)[::-1].copy()
+    if order == "permutation":
+        return np.random.default_rng([int(recipe["seed"]), 15, n]).permutation(n)
+    if order == "blocks-swapped":
+        c0 = int(recipe["blocks"][0][1])
+        return np.concatenate([np.arange(c0, n), np.arange(0, c0)])
+    raise ValueError(order)
+
+
+def pair_index_map(n, p):
+    """row k[r] of the ORIGINAL pair list (itertools.combinations order) that holds the two grains of row r of the pair
+    list of the reordered texture os[p]"""
+    iu, ju = np.triu_indices(n, 1)
+    gi, gj = p[iu], p[ju]
+    lo, hi = np.minimum(gi, gj), np.maximum(gi, gj)
+    return lo * n - lo * (lo + 1) // 2 + (hi - lo - 1)
+
+
+def half_cos(a):
+    return np.cos(np.radians(np.asarray(a, dtype=float) / 2))
+
+
+def reorder_judgement(angs, angs2, n, p, tmax):
+    """the pair angles of the reordered texture against the angles of the same pairs in the original order: number of
+    pairs whose angle changed (beyond float32 arithmetic), the worst one, the pairs that kept their angle but changed
+    their unit bin (the only legitimate source of a change of the index) and the resulting bound on |M - M'|"""
+    k = pair_index_map(n, p)
+    a, b = np.asarray(angs, dtype=float)[k], np.asarray(angs2, dtype=float)
+    d = np.abs(half_cos(a) - half_cos(b))
+    changed = ~(d <= SAME_ROW_TOL)
+    moved = int(((np.floor(a) != np.floor(b)) & ~changed).sum())
+    n_in = max(1, min(in_range_count(a, tmax), in_range_count(b, tmax)))
+    j = int(np.argmax(np.where(np.isnan(d), np.inf, d))) if len(d) else -1
+    iu, ju = np.triu_indices(n, 1)
+    return dict(changed=int(changed.sum()), moved=moved, tol=2.0 * moved / n_in + 1e-9, worst_row=j,
+                worst=(int(p[iu[j]]), int(p[ju[j]]), float(a[j]), float(b[j])) if j >= 0 else None)
+
+
+def slice_plan(rows, ncols, rng, full=False):
+    """index sets of a stack of `rows` rows on which a row-wise function is evaluated again: head / tail pieces, windows
+    around every 2^k rows and around the last multiple of typical block sizes (among them 2^j bytes / (8 ncols) for
+    j = 20..30), a strided gather through the whole stack, random pieces [thorough: also consecutive pieces of 32768]"""
+    plan = []
+
+    def win(lo, hi):
+        lo, hi = max(0, int(lo)), min(rows, int(hi))
+        if hi > lo:
+            plan.append(slice(lo, hi))
+
+    for w in (1, 257, 4099):
+        win(0, w)
+        win(rows - w, rows)
+    k = 10
+    while 2 ** k < rows:
+        win(2 ** k - 3, 2 ** k + 3)
+        k += 1
+    for blk in sorted(set(TYPICAL_BLOCKS) | {max(1, 2 ** j // (8 * ncols)) for j in range(20, 31)}):
+        if 1 < blk < rows:
+            m = (rows // blk) * blk
+            win(m - 3, m + 3)
+    plan.append(np.arange(0, rows, max(1, rows // 2048)))
+    for _ in range(8):
+        lo = int(rng.integers(0, rows))
+        win(lo, lo + int(rng.integers(1, 2049)))
+    if full:
+        for lo in range(0, rows, 32768):
+            win(lo, lo + 32768)
+    return plan
+
+
+def slice_faults(fn, q1, q2, whole, plan):
+    """fn(q1, q2) is row-wise: fn(q1[I], q2[I]) must be whole[I] for every index set I.  Returns (faults, rows evaluated)"""
+    faults, nrows = [], 0
+    rows = len(q1)
+    whole = np.asarray(whole, dtype=float)
+    if whole.shape != (rows,):
+        return [f"result of shape {whole.shape} for {rows} rows"], 0
+    for idx in plan:
+        part = np.asarray(fn(np.ascontiguousarray(q1[idx]), np.ascontiguousarray(q2[idx])), dtype=float)
+        ref = whole[idx]
+        nrows += len(ref)
+        if part.shape != ref.shape:
+            faults.append(f"{part.shape} results for {len(ref)} rows")
+            continue
+        d = np.abs(half_cos(part) - half_cos(ref))
+        bad_rows = np.flatnonzero(~(d <= SAME_ROW_TOL))
+        if bad_rows.size and len(faults) < 3:
+            j = int(bad_rows[0])
+            r = (idx.start + j) if isinstance(idx, slice) else int(idx[j])
+            what = f"rows {idx.start}..{idx.stop - 1}" if isinstance(idx, slice) else f"every {int(idx[1] - idx[0]) if len(idx) > 1 else 1}-th row"
+            faults.append(f"geometry.misorientation_angles on the whole stack of {rows} pair rows ({q1.shape[1]} x {q2.shape[1]} operator pairs, "
+                          f"{q1.dtype}) returns {float(whole[r])!r} for row {r}, evaluated on {what} alone it returns {float(part[j])!r} "
+                          f"({bad_rows.size} of the {len(ref)} rows of this piece differ)")
+    return faults, nrows
+
+
+def sample_rows(rows, ncols, rng, k=12):
+    """rows whose value is compared with the extracted model: ends, neighbours of 2^j rows and of the last multiples of
+    block sizes, random ones"""
+    c = {0, rows - 1, rows // 2}
+    j = 10
+    while 2 ** j < rows:
+        c |= {2 ** j - 1, 2 ** j}
+        j += 1
+    for blk in {max(1, 2 ** j // (8 * ncols)) for j in range(24, 31)} | set(TYPICAL_BLOCKS):
+        if 1 < blk < rows:
+            m = (rows // blk) * blk
+            c |= {m - 1, min(rows - 1, m)}
+    c = sorted(x for x in c if 0 <= x < rows)
+    if len(c) > k:
+        keep = {0, rows - 1}
+        c = sorted(keep | set(int(x) for x in rng.choice(c, k - 2, replace=False)))
+    return sorted(set(c) | set(int(x) for x in rng.integers(0, rows, 4)))
+
+
+def operator_matrices(geo, name):
+    """4x4 matrices acting on scalar-last quaternions: left multiplication by the operator quaternion (quaternion
+    product) or the stored 4x4 reflection -- used to BUILD row stacks only (any unit quaternions would do)"""
+    mats = []
+    for o in geo.symmetry_operations(lattice(geo, name)):
+        o = np.asarray(o, dtype=float)
+        if o.shape == (4, 4):
+            mats.append(o)
+        else:
+            x, y, z, w = o
+            mats.append(np.array([[w, -z, y, x], [z, w, -x, y], [-y, x, w, z], [-x, -y, -z, w]]))
+    return np.array(mats)
+
+
+def rowstack_arrays(geo, recipe):
+    """(q1, q2) of a row-stack recipe dict(system, rows, dtype, b_ops, kinds, seed): the first `rows` pair rows
+    (itertools.combinations order) of the operator-multiplied quaternions of an ordered texture with just enough grains"""
+    from scipy.spatial.transform import Rotation
+    rows = int(recipe["rows"])
+    n = grains_above(rows - 1)
+    tex = dict(n=n, blocks=split_blocks(n, recipe["kinds"]), seed=recipe["seed"])
+    quats = Rotation.from_matrix(ordered_texture(tex)).as_quat()
+    Q = np.einsum("aij,gj->gai", operator_matrices(geo, recipe["system"]), quats)
+    iu, ju = np.triu_indices(n, 1)
+    dt = np.dtype(recipe["dtype"])
+    q1 = np.ascontiguousarray(Q[iu[:rows]].astype(dt))
+    q2 = np.ascontiguousarray(Q[ju[:rows]][:, :int(recipe.get("b_ops") or Q.shape[1])].astype(dt))
+    return q1, q2
+
+
+def record_index(dg, geo, os, s):
+    """misorientation_index(os, s) under the recorder and the argument guard"""
+    import argguard
+    faults = []
+    with warnings.catch_warnings():
+        warnings.simplefilter("ignore")
+        with Recorder() as rec:
+            rec.take()
+            try:
+                m, faults = argguard.guarded(dg.misorientation_index, (os, s))
+                r = ("OK", float(m))
+            except Exception as e:  # noqa: BLE001
+                r = ("ERR", common.exc_code(e))
+                faults = list(getattr(e, "argguard_faults", []))
+            _, ac = rec.take()
+    return r, ac, faults
+
+
+def large_unit(task):
+    """one expensive call of the family (runs in a forked worker): a texture call (recipe + order) or a row stack"""
+    import time
+    import traceback
+    t0 = time.time()
+    try:
+        import pydrex.diagnostics as dg
+        import pydrex.geometry as geo
+        import argguard
+        rng = np.random.default_rng([int(task["seed"]), 16, int(task["id"])])
+        out = dict(id=task["id"])
+        if task["what"] == "texture":
+            rc = task["recipe"]
+            os = ordered_texture(rc)
+            if task["order"]:
+                os = np.ascontiguousarray(os[reorder_perm(rc, task["order"])])
+            r, ac, faults = record_index(dg, geo, os, lattice(geo, rc["system"]))
+            out.update(r=r, arg_faults=faults, ncalls=len(ac))
+            if len(ac) == 1:
+                q1, q2, angs = ac[0]
+                out.update(shapes=(q1.shape, q2.shape), dtypes=(str(q1.dtype), str(q2.dtype)), angs=np.asarray(angs, dtype=float))
+        else:
+            rc = task["recipe"]
+            q1, q2 = rowstack_arrays(geo, rc)
+            try:
+                angs, faults = argguard.guarded(geo.misorientation_angles, (q1, q2))
+                out.update(r=("OK", None), arg_faults=faults, ncalls=1, shapes=(q1.shape, q2.shape), dtypes=(str(q1.dtype), str(q2.dtype)),
+                           angs=np.asarray(angs, dtype=float))
+            except Exception as e:  # noqa: BLE001
+                out.update(r=("ERR", common.exc_code(e)), arg_faults=[], ncalls=0)
+        if "angs" in out and q1.ndim == 3 and q2.ndim == 3 and len(q1) == len(q2) == len(out["angs"]) and out["angs"].ndim == 1:
+            rows, ncols = len(q1), q1.shape[1] * q2.shape[1]
+            out["slice_faults"], out["slice_rows"] = slice_faults(geo.misorientation_angles, q1, q2, out["angs"],
+                                                                  slice_plan(rows, ncols, rng, full=task.get("full", False)))
+            out["model_rows"] = [(int(i), q1.shape[1], q2.shape[1], flat(q1[i]), flat(q2[i]), float(out["angs"][i]))
+                                 for i in sample_rows(rows, ncols, rng)]
+            if task["what"] == "rowstack":
+                a = out.pop("angs")
+                out["summary"] = dict(n=len(a), finite=bool(np.all(np.isfinite(a))), lo=float(np.nanmin(a)), hi=float(np.nanmax(a)),
+                                      zeros=int((a == 0).sum()))
+        out["wall"] = time.time() - t0
+        return out
+    except Exception:  # noqa: BLE001
+        return dict(id=task["id"], crash=traceback.format_exc()[-1500:], wall=time.time() - t0)
+
+
+def run_units(tasks):
+    """the units side by side in forked workers (the JIT-compiled kernels are inherited), results in task order"""
+    import os as _os
+    workers = int(_os.environ.get("VERIF_C14_WORKERS", min(6, _os.cpu_count() or 1)))
+    if workers <= 1 or len(tasks) <= 1:
+        return [large_unit(t) for t in tasks]
+    order = sorted(range(len(tasks)), key=lambda i: -tasks[i].get("cost", 0))
+    with multiprocessing.get_context("fork").Pool(processes=min(workers, len(tasks))) as pool:
+        res = pool.map(large_unit, [tasks[i] for i in order], chunksize=1)
+    out = [None] * len(tasks)
+    for i, r in zip(order, res):
+        out[i] = r
+    return out
+
+
+def large_plan(geo, tier, seed):
+    """the cases of the family: (texture cases, row-stack cases).  cap(k) = 2^k bytes / (8 n_sym^2) = number of pair rows
+    whose rows x n_sym^2 binary64 table of candidate angles fills 2^k bytes."""
+    rng = np.random.default_rng(seed + 35)
+    nsym = {name: len(geo.symmetry_operations(lattice(geo, name))) for name in SYSTEMS}
+    quick = tier == "quick"
+    tex, stacks = [], []
+
+    def cap(name, k):
+        return 2 ** k // (8 * nsym[name] ** 2)
+
+    def add_tex(name, n, side, boundary, orders, kinds=None):
+        if not 3 <= n <= MAX_GRAINS:
+            return
+        kinds = kinds or LARGE_BLOCK_KINDS[int(rng.integers(0, len(LARGE_BLOCK_KINDS)))]
+        tex.append(dict(recipe=dict(system=name, n=int(n), blocks=split_blocks(int(n), kinds), seed=int(seed)),
+                        orders=list(orders), side=side, boundary=boundary, cost=npairs(n) * nsym[name] * 5e-6))
+
+    def add_stack(name, rows, side, boundary, dtype, b_ops=None, kinds=None):
+        if rows < 2 or (nsym[name] == 1 and rows > npairs(MAX_GRAINS)):
+            return
+        kinds = kinds or LARGE_BLOCK_KINDS[int(rng.integers(0, len(LARGE_BLOCK_KINDS)))]
+        stacks.append(dict(recipe=dict(system=name, rows=int(rows), dtype=dtype, b_ops=b_ops, kinds=list(kinds), seed=int(seed)),
+                           side=side, boundary=boundary, cost=rows * nsym[name] * (b_ops or nsym[name]) * 1e-7))
+
+    by_ops = sorted(SYSTEMS, key=lambda s: -nsym[s])
+    reps = {}                                   # one system per distinct operator count
+    for name in SYSTEMS:
+        reps.setdefault(nsym[name], name)
+    rot = int(seed) % 3
+    # -- textures through the public API -------------------------------------------------------------------------------
+    if quick:
+        top = by_ops[0]                         # most operators: the fewest grains (and the cheapest call) at 2^28 bytes
+        add_tex(top, grains_above(cap(top, 28)) + int(rng.integers(0, 41)), "above", "2^28 bytes", ("reversed", "permutation"),
+                kinds=LARGE_BLOCK_KINDS[int(seed) % 2 * 2])          # aligned / tight block first, random block last
+        for i, name in enumerate(SYSTEMS):      # a cheaper boundary for every system, sides and orders alternate
+            k = max(kk for kk in range(16, 29) if npairs(grains_above(cap(name, kk))) * nsym[name] <= 300000)
+            above = (i + int(seed)) % 2 == 0
+            n = grains_above(cap(name, k)) + int(rng.integers(0, 9)) if above else grains_above(cap(name, k)) - 1 - int(rng.integers(0, 3))
+            add_tex(name, n, "above" if above else "below", f"2^{k} bytes", (REORDERINGS[(i + rot) % 3],))
+    else:
+        for name in SYSTEMS:
+            for k in (28, 27, 26, 24):
+                n0 = grains_above(cap(name, k))
+                add_tex(name, n0 + int(rng.integers(0, 88 if k == 28 else 9)), "above", f"2^{k} bytes", REORDERINGS if k >= 27 else REORDERINGS[:2])
+                if k in (28, 26):
+                    add_tex(name, n0 - 1, "below", f"2^{k} bytes", REORDERINGS[:2])
+            for j in (16, 17):                  # numbers of pair rows around 2^j
+                n0 = grains_above(2 ** j)
+                add_tex(name, n0, "above", f"2^{j} rows", REORDERINGS[:1])
+                add_tex(name, n0 - 1, "below", f"2^{j} rows", REORDERINGS[1:2])
+        add_tex("triclinic", MAX_GRAINS, "at", "2000 grains", REORDERINGS[:2])
+        add_tex("triclinic", 1024, "at", "rows multiple of 512", REORDERINGS[:2])
+        add_tex("orthorhombic", 512, "at", "rows multiple of 256", REORDERINGS[:2])
+    # -- row stacks handed to geometry.misorientation_angles directly ---------------------------------------------------
+    names = [reps[o] for o in sorted(reps) if o > 1]
+    tri = reps.get(1)
+    if quick:
+        for i, name in enumerate(names):
+            c = cap(name, 28)
+            add_stack(name, c + 1 + int(rng.integers(0, c // 16)), "above", "2^28 bytes", "float32",
+                      kinds=LARGE_BLOCK_KINDS[(i + int(seed)) % 2 * 2])
+        a, b, c3 = names[rot % len(names)], names[(rot + 1) % len(names)], names[(rot + 2) % len(names)]
+        add_stack(a, cap(a, 28), "at", "2^28 bytes", "float32")
+        add_stack(b, cap(b, 27) + 1 + int(rng.integers(0, 999)), "above", "2^27 bytes", "float64")
+        add_stack(c3, cap(c3, 26) - int(rng.integers(0, 999)), "below", "2^26 bytes", "float64")
+        add_stack(c3, 2 * cap(c3, 25), "at", "2 x 2^25 bytes", "float32")
+        add_stack(b, 2 * cap(b, 25) + cap(b, 25) // 2, "above", "2.5 x 2^25 bytes", "float32")
+        add_stack(a, 65536 * 2 + 1, "above", "2 x 65536 rows", "float64", b_ops=1)
+        if tri:
+            add_stack(tri, npairs(MAX_GRAINS), "at", "2000 grains", "float32")
+            add_stack(tri, 2 ** 20 + 1, "above", "2^20 rows", "float64")
+    else:
+        for i, name in enumerate(names + ([tri] if tri else [])):
+            for k in (29, 28, 27, 26, 25, 24, 22, 20):
+                c = cap(name, k)
+                dt = ("float32", "float64")[(i + k) % 2]
+                add_stack(name, c + 1 + int(rng.integers(0, max(1, c // 16))), "above", f"2^{k} bytes", dt)
+                add_stack(name, c + 1, "above", f"2^{k} bytes", "float32")
+                add_stack(name, c, "at", f"2^{k} bytes", dt)
+                add_stack(name, c - 1 - int(rng.integers(0, max(1, c // 16))), "below", f"2^{k} bytes", "float32")
+            for mult in (2, 3):
+                add_stack(name, mult * cap(name, 26), "at", f"{mult} x 2^26 bytes", "float32")
+                add_stack(name, mult * cap(name, 26) + 1 + int(rng.integers(0, cap(name, 26) - 1)), "above", f"{mult} x 2^26 bytes", "float32")
+            for blk in TYPICAL_BLOCKS:
+                for rows in (3 * blk - 1, 3 * blk, 3 * blk + 1):
+                    add_stack(name, rows, ("below", "at", "above")[rows - 3 * blk + 1], f"3 x {blk} rows", "float32")
+            for j in (16, 17, 18, 19):
+                add_stack(name, 2 ** j + 1, "above", f"2^{j} rows", "float64", b_ops=1)
+                add_stack(name, 2 ** j, "at", f"2^{j} rows", "float32")
+    return tex, stacks
+
+
+def theory_mass(st, geo, name):
+    s = lattice(geo, name)
+    try:
+        return float(sum(st.misorientations_random(i, i + 1, s) for i in range(st._max_misorientation(s))))
+    except Exception:  # noqa: BLE001
+        return None
+
+
+def large_aggregates(chk, tier):
+    """correspondence of the large-aggregate / size-boundary family (see the comment above)"""
+    import argguard
+    import pydrex.stats as st
+    import pydrex.geometry as geo
+    bad = []
+    B = Batch()
+    tex, stacks = large_plan(geo, tier, chk.seed)
+    cov = chk.cov.setdefault("large_aggregates", {"texture_calls": 0, "rowstack_calls": 0, "system": {}, "n_grains": {}, "pair_rows_log2": {},
+                                                  "scratch_bytes_log2": {}, "side": {}, "boundary": {}, "blocks": {}, "reordering": {},
+                                                  "dtype": {}, "slice_rows_evaluated": 0, "model_rows": 0, "pairs_matched_under_reordering": 0,
+                                                  "pairs_bin_moved": 0, "max_grains": 0, "max_pair_rows": 0, "unit_wall_s": 0.0})
+
+    def bump(k, v):
+        cov[k][str(v)] = cov[k].get(str(v), 0) + 1
+
+    tasks = []
+    for ci, c in enumerate(tex):
+        for order in [None] + c["orders"]:
+            tasks.append(dict(id=len(tasks), what="texture", case=ci, recipe=c["recipe"], order=order, seed=chk.seed,
+                              cost=c["cost"], full=tier != "quick"))
+    for ci, c in enumerate(stacks):
+        tasks.append(dict(id=len(tasks), what="rowstack", case=ci, recipe=c["recipe"], seed=chk.seed, cost=c["cost"], full=tier != "quick"))
+    results = run_units(tasks)
+    hist = chk.cov["histogram"]
+    nsym = {name: len(geo.symmetry_operations(lattice(geo, name))) for name in SYSTEMS}
+
+    def common_checks(t, res, meta, rows, A, Bn, f32):
+        if "crash" in res:
+            bad.append((meta, "the unit raised: " + res["crash"]))
+            return False
+        cov["unit_wall_s"] = round(cov["unit_wall_s"] + res["wall"], 1)
+        for f in res["arg_faults"]:
+            bad.append((dict(meta, what="arguments"), f))
+        if res["ncalls"] != 1:
+            bad.append((meta, f"expected one misorientation_angles call, saw {res['ncalls']}" if t["what"] == "texture" else f"misorientation_angles: {res['r']}"))
+            return False
+        if tuple(res["shapes"][0]) != (rows, A, 4) or tuple(res["shapes"][1]) != (rows, Bn, 4):
+            bad.append((meta, f"misorientation_angles called on shapes {res['shapes']}, expected ({rows}, {A}, 4) / ({rows}, {Bn}, 4)"))
+            return False
+        if "slice_faults" not in res:
+            bad.append((meta, "misorientation_angles did not return one angle per row"))
+            return False
+        for f in res["slice_faults"]:
+            bad.append((dict(meta, what="row-wise"), f))
+        cov["slice_rows_evaluated"] += res["slice_rows"]
+        for i, a_, b_, f1, f2, ang in res["model_rows"]:
+            def h(m, ang=ang, i=i, meta=meta):
+                if m[0] != "OK" or not abs(math.cos(math.radians(ang / 2)) - math.cos(math.radians(m[1][0] / 2))) <= (SAME_ROW_TOL if f32 else 1e-12):
+                    bad.append((dict(meta, what="pair angles"), f"row {i} of {rows}: implementation {ang!r} vs model {m}"))
+            B.add("misangle", [a_, b_], f1 + f2, h)
+            cov["model_rows"] += 1
+        bump("pair_rows_log2", int(math.log2(rows)))
+        bump("scratch_bytes_log2", int(math.log2(rows * A * Bn * 8)))
+        cov["max_pair_rows"] = max(cov["max_pair_rows"], rows)
+        return True
+
+    for ci, c in enumerate(tex):
+        rc = c["recipe"]
+        name, n = rc["system"], rc["n"]
+        k, s = SYSTEMS.index(name), lattice(geo, name)
+        tmax = st._max_misorientation(s)
+        kinds = "+".join(b[0] for b in rc["blocks"])
+        runs = {t["order"]: (t, results[t["id"]]) for t in tasks if t["what"] == "texture" and t["case"] == ci}
+        okay = {}
+        for order, (t, res) in runs.items():
+            meta = dict(function="misorientation_index", system=name, kind="large:" + kinds, n=n, large=dict(call="large_aggregate", recipe=rc, orders=c["orders"]),
+                        order=order or "as generated")
+            cov["texture_calls"] += 1
+            bump("system", name); bump("n_grains", n); bump("side", c["side"]); bump("boundary", c["boundary"]); bump("blocks", kinds)
+            bump("reordering", order or "as generated"); bump("dtype", "texture")
+            hist["system"][name] = hist["system"].get(name, 0) + 1
+            hist["kind"]["large"] = hist["kind"].get("large", 0) + 1
+            hist["n_grains"][str(n)] = hist["n_grains"].get(str(n), 0) + 1
+            cov["max_grains"] = max(cov["max_grains"], n)
+            r = res.get("r", ("ERR", "crash"))
+            hist["result"][r[0] if r[0] == "ERR" else "OK"] = hist["result"].get(r[0] if r[0] == "ERR" else "OK", 0) + 1
+            chk.note_case(("large", name, n, kinds, order, rc["seed"]), nontrivial=True,
+                          sample=dict(function="misorientation_index", system=name, kind="large:" + kinds, n_grains=n, order=order,
+                                      result=r[1]))
+            if not common_checks(t, res, meta, npairs(n), nsym[name], nsym[name], True):
+                continue
+            angs = res["angs"]
+            # index = model index of the recorded angles (errors included: rhombohedral raises, a recorded finding)
+            B.add("mindex_angles", [k], flat(angs), expect_vec(bad, dict(meta, what="index from the recorded pair angles"),
+                                                               ("OK", [r[1]]) if r[0] == "OK" else r, rtol=1e-10))
+            if r[0] == "OK":
+                T = theory_mass(st, geo, name)
+                upper = 1 + 1e-3 if name in GOOD_MASS else (1 + (T if T is not None else 1.0)) / 2 + 1e-9
+                if not (math.isfinite(r[1]) and -1e-12 <= r[1] <= upper):
+                    bad.append((dict(meta, what="range"), f"misorientation_index returned {r[1]!r}, not a number in [0, {upper:.6f}] "
+                                                          f"({in_range_count(angs, tmax)} of {len(angs)} pair angles lie in [0, {tmax}])"))
+            okay[order] = (r, angs)
+        if None not in okay:
+            continue
+        r0, a0 = okay[None]
+        for order in c["orders"]:
+            if order not in okay:
+                continue
+            r1, a1 = okay[order]
+            meta = dict(function="misorientation_index", system=name, kind="large:" + kinds, n=n, what="reordering",
+                        large=dict(call="large_aggregate", recipe=rc, orders=c["orders"]), order=order)
+            p = reorder_perm(rc, order)
+            j = reorder_judgement(a0, a1, n, p, tmax)
+            cov["pairs_matched_under_reordering"] += len(a0)
+            cov["pairs_bin_moved"] += j["moved"]
+            if j["changed"]:
+                gi, gj, x, y = j["worst"]
+                bad.append((meta, f"{j['changed']} of {len(a0)} pair angles change when the grains are reordered ({order}): grains ({gi}, {gj}) "
+                                  f"have {x!r} in the original order and {y!r} in the new one"))
+            if r0[0] != r1[0] or (r0[0] == "ERR" and r0[1] != r1[1]):
+                bad.append((meta, f"misorientation_index: {r0} in the original order, {r1} after the reordering ({order})"))
+            elif r0[0] == "OK" and not abs(r0[1] - r1[1]) <= j["tol"]:
+                bad.append((meta, f"M-index changes under a reordering of the grains ({order}): {r0[1]!r} -> {r1[1]!r} "
+                                  f"(tolerance {j['tol']:.2e}: {j['moved']} pairs changed their bin)"))
+    for ci, c in enumerate(stacks):
+        rc = c["recipe"]
+        name, rows = rc["system"], rc["rows"]
+        t = next(t for t in tasks if t["what"] == "rowstack" and t["case"] == ci)
+        res = results[t["id"]]
+        A, Bn = nsym[name], int(rc.get("b_ops") or nsym[name])
+        meta = dict(function="misorientation_angles", system=name, kind="large-rowstack:" + "+".join(rc["kinds"]), rows=rows,
+                    large=dict(call="misorientation_angles_rowstack", recipe=rc))
+        cov["rowstack_calls"] += 1
+        bump("system", name); bump("side", c["side"]); bump("boundary", c["boundary"]); bump("blocks", "+".join(rc["kinds"])); bump("dtype", rc["dtype"])
+        chk.note_case(("large-rowstack", name, rows, rc["dtype"], Bn, tuple(rc["kinds"]), rc["seed"]), nontrivial=True)
+        if not common_checks(t, res, meta, rows, A, Bn, rc["dtype"] == "float32"):
+            continue
+        sm = res["summary"]
+        if not (sm["finite"] and 0 <= sm["lo"] and sm["hi"] <= 180 + 1e-9):
+            bad.append((dict(meta, what="range"), f"angles not all in [0, 180]: {sm}"))
+    # returned storage is not shared between calls (a blocked implementation may keep its buffers)
+    q1, q2 = rowstack_arrays(geo, dict(system=SYSTEMS[-1], rows=4097, dtype="float32", kinds=LARGE_BLOCK_KINDS[0], seed=chk.seed))
+    for f in argguard.fresh_result_probe(geo.misorientation_angles, lambda: ((q1.copy(), q2.copy()), {})):
+        bad.append((dict(function="misorientation_angles", what="returned storage"), f))
+    B.run()
+    chk.cov["traces_validated_against_impl"] = chk.cov.get("traces_validated_against_impl", 0) + len(B.lines)
+    return bad
+
+
+# property oracle of the family (public API only; `large` = the recipe dicts above)
+def oracle_large_texture(dg, st, geo, recipe, orders):
+    fails = []
+    name, n = recipe["system"], int(recipe["n"])
+    s = lattice(geo, name)
+    tmax = st._max_misorientation(s)
+    os = ordered_texture(recipe)
+    r0, ac0, faults = record_index(dg, geo, os, s)
+    fails += [f"misorientation_index modifies its argument: {f}" for f in faults]
+    known_raise = name == "rhombohedral" and r0 == ("ERR", "AssertionError")       # recorded finding: the theory raises
+    if r0[0] == "ERR" and not known_raise:
+        return fails + [f"misorientation_index raised {r0[1]} for {n} grains ({name})"]
+    a0 = np.asarray(ac0[0][2], dtype=float) if len(ac0) == 1 else None
+    if r0[0] == "OK":
+        T = theory_mass(st, geo, name)
+        upper = 1 + 1e-3 if name in GOOD_MASS else (1 + (T if T is not None else 1.0)) / 2 + 1e-9
+        if not math.isfinite(r0[1]):
+            if not (a0 is not None and in_range_count(a0, tmax) == 0):     # recorded finding: no pair in range
+                fails.append(f"M-index of {n} grains ({name}) is {r0[1]!r}, not a number in [0, 1]")
+        elif not -1e-12 <= r0[1] <= upper:
+            fails.append(f"M-index {r0[1]!r} of {n} grains ({name}) outside [0, {upper:.6f}]")
+    if a0 is not None and ac0[0][0].ndim == 3 and ac0[0][1].ndim == 3 and len(ac0[0][0]) == len(ac0[0][1]) == len(a0):
+        # every pair contributes its misorientation angle minimised over the symmetry operators: the function that
+        # computes them is row-wise, the rows of the big stack evaluated in pieces must give the same angles
+        q1, q2 = ac0[0][0], ac0[0][1]
+        sf, _ = slice_faults(geo.misorientation_angles, q1, q2, a0,
+                             slice_plan(len(q1), q1.shape[1] * q2.shape[1], np.random.default_rng([int(recipe["seed"]), 17]), full=True))
+        fails += [f"{n} grains ({name}): " + f for f in sf[:1]]
+    for order in orders:
+        p = reorder_perm(recipe, order)
+        r1, ac1, _ = record_index(dg, geo, np.ascontiguousarray(os[p]), s)
+        if r1[0] != r0[0] or (r0[0] == "ERR" and r1[1] != r0[1]):
+            fails.append(f"misorientation_index of {n} grains ({name}): {r0} in the original order, {r1} after the reordering ({order})")
+            continue
+        tol, moved = 1e-9, 0
+        if a0 is not None and len(ac1) == 1 and len(ac1[0][2]) == len(a0) == npairs(n):
+            j = reorder_judgement(a0, ac1[0][2], n, p, tmax)
+            tol, moved = j["tol"], j["moved"]
+            if j["changed"]:
+                gi, gj, x, y = j["worst"]
+                fails.append(f"{j['changed']} of the {len(a0)} pair angles of {n} grains ({name}) change when the grains are reordered ({order}): "
+                             f"grains ({gi}, {gj}) have misorientation {x!r} in the original order and {y!r} in the new one")
+        if r0[0] == "OK" and not same_value(r0[1], r1[1], tol):
+            fails.append(f"M-index of {n} grains ({name}) changes under a reordering of the grains ({order}): {r0[1]!r} -> {r1[1]!r} "
+                         f"(tolerance {tol:.2e}: {moved} pairs changed their bin)")
+    return fails
+
+
+def oracle_rowstack(geo, recipe):
+    import argguard
+    q1, q2 = rowstack_arrays(geo, recipe)
+    try:
+        whole, faults = argguard.guarded(geo.misorientation_angles, (q1, q2))
+    except Exception as e:  # noqa: BLE001
+        return [f"misorientation_angles raised {type(e).__name__} on {q1.shape} / {q2.shape}"]
+    fails = [f"misorientation_angles modifies its argument: {f}" for f in faults]
+    whole = np.asarray(whole, dtype=float)
+    if whole.shape != (len(q1),):
+        return fails + [f"misorientation_angles returned shape {whole.shape} for {len(q1)} rows"]
+    if not (np.all(np.isfinite(whole)) and whole.min() >= 0 and whole.max() <= 180 + 1e-9):
+        fails.append(f"misorientation angles of {len(q1)} rows of unit quaternions not all in [0, 180] (min {whole.min()!r}, max {whole.max()!r})")
+    sf, _ = slice_faults(geo.misorientation_angles, q1, q2, whole,
+                         slice_plan(len(q1), q1.shape[1] * q2.shape[1], np.random.default_rng([int(recipe["seed"]), 17]), full=True))
+    return fails + sf[:1]
+
+
+def oracle_large(dg, st, geo, large):
+    if large["call"] == "large_aggregate":
+        return oracle_large_texture(dg, st, geo, large["recipe"], large["orders"])
+    return oracle_rowstack(geo, large["recipe"])
+
+
+LARGE_NOTE = ("input too large to inline: a member of the large-aggregate / size-boundary family, regenerated from the recipe -- "
+              "large_aggregate: orientations = c14.ordered_texture(recipe) (blocks of aligned / tight / random grains, "
+              "np.random.default_rng([seed, 14, n])), reorderings c14.reorder_perm(recipe, order); "
+              "misorientation_angles_rowstack: (q1, q2) = c14.rowstack_arrays(geometry, recipe)")
+
+
+def search_large(chk, extra, add, nothing_found_yet):
+    """the members of the family that failed in the correspondence first; the quick plan of the family (cheapest first)
+    when nothing at all was found -- a change that only acts above a size boundary leaves every small input intact"""
+    import json
+    import pydrex.diagnostics as dg
+    import pydrex.stats as st
+    import pydrex.geometry as geo
+    got = {"large_aggregate": 0, "misorientation_angles_rowstack": 0}
+    seen = set()
+
+    def sweep(cands):
+        for c in cands:
+            key = json.dumps(c, sort_keys=True, default=str)
+            if key in seen or got[c["call"]] >= 1:
+                continue
+            seen.add(key)
+            fails = oracle_large(dg, st, geo, c)
+            if fails:
+                got[c["call"]] += 1
+                add(dict(c, note=LARGE_NOTE), fails)
+
+    def size(c):
+        return c["recipe"].get("rows", 0) * 1e-3 + npairs(c["recipe"].get("n", 0))
+
+    sweep(sorted((m["large"] for m in extra if isinstance(m.get("large"), dict)), key=size))
+    if nothing_found_yet() and not any(got.values()):
+        tex, stacks = large_plan(geo, "quick", chk.seed)
+        sweep([dict(call="misorientation_angles_rowstack", recipe=c["recipe"]) for c in sorted(stacks, key=lambda c: c["cost"])]
+              + [dict(call="large_aggregate", recipe=c["recipe"], orders=c["orders"]) for c in sorted(tex, key=lambda c: c["cost"])])
+
+
+# --------------------------------------------------------------------------
 # witnesses of the known findings (run on the implementation)
 # --------------------------------------------------------------------------
 TWOFOLD = np.array([np.diag(d) for d in ([1, 1, 1], [1, -1, -1], [-1, 1, -1], [-1, -1, 1])], dtype=float)
@@ -909,6 +1546,7 @@ def search(chk, extra=()):
             if fails:
                 add(dict(call="misorientation_indices", ncpus=w, shape=list(m["stack"].shape),
                          stack=[hx(x) for x in m["stack"].reshape(-1)]), fails)
+    search_large(chk, extra, add, lambda: not found)
     return found
 
 
@@ -920,6 +1558,7 @@ def run(chk):
         "hand-written Model_mindex.v is the generic (any number of grains, any lattice) model the instance lemmas target; np.histogram(bins=n, range=(0,n), density=True) = Model_mindex.hist_density is tied by this differential run (tie H) on every texture",
         "scipy Rotation.as_quat is an oracle: unit quaternion whose rotation matrix is the input (checked on every recorded call to 1e-10); the same hypothesis is checked on the float32 quaternions that ENTER misorientation_angles (first operator = identity), whichever routine produced them (2e-6)",
         "the code stores the operator-multiplied quaternions in float32; the binary64 model is compared at 2e-6 in cos(angle/2), and the index from the full model path up to the pairs whose bin differs (counted as near_discontinuity); histogram and index from the RECORDED angles are compared at 1e-10; a non-finite index is a violation unless no recorded pair angle lies in [0, theta_max] (known finding)",
+        "large aggregates (513+ hexagonal ... 1171+ orthorhombic grains; the Python loop of misorientation_hist makes one call cost 10 s and more) are covered by the recorded-angle path only: the index is compared with the model index of the RECORDED angles, sampled rows of the recorded quaternion stacks with the model's row-wise minimum, the whole stack with geometry.misorientation_angles on pieces of its rows (1e-6 in cos(angle/2)), the angles of the same pairs under reorderings of the grains; the full model path (quaternions -> angles) is not run at these sizes",
         "process pools (misorientation_indices) are outside the model: C14_batched_iff / _positional / _chunks / _first_error are about the model of imap as an order-preserving map (any chunking of the stack), C14_gen_indices_positional about the generated code with a sequential pool; equality and order under 1..4 [thorough 1..16] workers and an external pool are measured at run time only",
     ]
     chk.cov["rule"] = ("textures: 120 [thorough 480] = 6 lattice systems x {random (Haar), clustered (sigma 0.5 rad), tight (0.08 rad), single orientation} x "
@@ -927,13 +1566,19 @@ def run(chk):
                        "operator tables, misorientation_angles on random binary64 quaternion arrays (incl. zero angles), 50 quaternion products, "
                        "boundary stream: per system 64 two-grain textures (identity, special rotation) + 30 [400] other pairs of special rotations (30..180 degrees about <100>, <110>, <111>) + 12 [120] rotated-frame copies + 6 [40] textures of symmetry-equivalent copies (pair angles exactly 0 / exactly theta_max / above); "
                        "oblique stream: per system 10 [45] pairs of exact half turns about oblique axes, 8 [10] aligned textures seen from a half-turned frame, 4 [24] signed-permutation textures; "
-                       "batched stacks of 1..8 [thorough ..40] snapshots x worker counts.  distinct = distinct (function, system, input bytes); "
+                       "batched stacks of 1..8 [thorough ..40] snapshots x worker counts; "
+                       "large aggregates / size boundaries (coverage.large_aggregates): ordered heterogeneous textures (blocks of aligned / tight / random grains) with grain counts on both sides of "
+                       "rows x n_sym^2 x 8 bytes = 2^k (k = 28 for the system with most operators: 513..553 hexagonal grains, a cheaper k for every system) [thorough: k = 24, 26, 27, 28 and 2^16 / 2^17 pair rows for every system, 2000 triclinic grains], "
+                       "each evaluated as generated and reordered (reversed / random permutation / blocks swapped), and row stacks handed to geometry.misorientation_angles directly (float32 / float64, above / at / below 2^28, 2^27, 2^26 bytes, "
+                       "multiples and non-multiples of block sizes, 1999000 rows) whose value is compared with its value on head / tail / boundary windows, a strided gather and random pieces of the rows and with the model on sampled rows.  "
+                       "distinct = distinct (function, system, input bytes / recipe); "
                        "non-trivial = not a single-orientation texture / a result that is not an error")
     bad, variant = [], 0
     have_driver = br.drivers.get(GROUP, 1) is None
     if have_driver:
         bad, variant = correspondence(chk, chk.tier)
         bad += batched(chk, chk.tier)
+        bad += large_aggregates(chk, chk.tier)
     chk.cov["disagreements"] = len(bad)
     # findings files: compiled = the refutation still holds of the model
     br_f = common.build(targets=FINDINGS, groups=())   # not obligations: refutations of the faithful model
@@ -958,7 +1603,7 @@ def run(chk):
                         "required": "C14; known_findings.json marks this finding as fixed"})
         return
     found = search(chk, extra=[m for m, _ in bad])
-    dis = [{k: v for k, v in m.items() if k not in ("os", "stack", "q1", "q2")} | {"detail": d} for m, d in bad[:5]]
+    dis = [{k: v for k, v in m.items() if k not in ("os", "stack", "q1", "q2", "large")} | {"detail": d} for m, d in bad[:5]]
     if found:
         for payload, fails in found:
             chk.replay({"kind": "property-violation", "input": payload, "observed": fails, "required": "C14 (see properties.jsonl)",
@@ -987,6 +1632,8 @@ def replay(d):
     elif i["call"] == "misorientation_indices":
         stack = np.array([u(x) for x in i["stack"]]).reshape(i["shape"])
         fails = oracle_batched(dg, geo, stack, i["ncpus"])
+    elif i["call"] in ("large_aggregate", "misorientation_angles_rowstack"):      # regenerated from the recipe
+        fails = oracle_large(dg, st, geo, i)
     else:
         rep = witnesses()
         fails = [rep[i["key"]][1]] if rep.get(i["key"], (False,))[0] else []
